@@ -107,3 +107,48 @@ class StepCP:
 
 def is_zero(v) -> bool:
     return isinstance(v, Const) and isinstance(v.v, (int, float)) and not isinstance(v.v, bool) and v.v == 0
+
+
+# --------------------------------------------------------------------------- batch (parallel) evaluation
+
+class CPResult:
+    def __init__(self, config, rows, locs, calls, cols):
+        self.config = config
+        self.rows = rows          # table -> {True/False: [ {col: value} ]}
+        self.locals = locs        # {True/False: [ {name: value} ]}
+        self.calls = calls
+        self.cols = cols
+
+
+_BATCH_PROG = None
+
+
+def _one(args):
+    config, want_locals = args
+    s = StepCP(_BATCH_PROG, config)
+    rows, locs = {}, {}
+    for table in ("water_flux", "crop_growth"):
+        rows[table] = {gs: s.row_values(table, {"growing_season": gs}) for gs in (True, False)}
+    wf = s.writers["water_flux"]
+    for gs in (True, False):
+        out = []
+        for p in s.partitions_at(wf):
+            v = p.env.get("growing_season", (None, False))[0]
+            if isinstance(v, Const) and v.v is gs:
+                out.append({n: p.env.get(n, (TOP, False))[0] for n in want_locals})
+        locs[gs] = out
+    calls = sorted({f"{k}@{c.lineno}" for c, k in s.interp.call_log})
+    return CPResult(config, rows, locs, calls, s.cols)
+
+
+def batch(prog: Program, configs: List[dict], want_locals: List[str] = ()) -> List[CPResult]:
+    """Run StepCP for several configurations in parallel worker processes (fork)."""
+    global _BATCH_PROG
+    import multiprocessing as mp
+    _BATCH_PROG = prog
+    jobs = [(c, list(want_locals)) for c in configs]
+    if len(jobs) == 1:
+        return [_one(jobs[0])]
+    ctx = mp.get_context("fork")
+    with ctx.Pool(min(16, len(jobs))) as pool:
+        return pool.map(_one, jobs)
